@@ -203,6 +203,7 @@ pub fn run(tier: Tier, replay: Option<&J>) -> i32 {
                         } else {
                             let dev = match name.as_str() {
                                 "field-order-descending" | "field-order-ignore" => Some("D-C12-field-order-attribute-kept"),
+                                "fixed-metadata-named-precision-scale" | "fixed-invalid-decimal-parameters" | "fixed-unknown-logical-type" => Some("D-C12-logical-types-not-reduced-to-underlying-form"),
                                 "namespace-empty-string" => None,
                                 _ => None,
                             };
